@@ -64,6 +64,14 @@ OPS = [operator.add, operator.sub, operator.mul, operator.truediv, operator.pow]
 OPN = ["Add", "Sub", "Mul", "Div", "Pow"]
 
 
+def fopt(x, y, *, t=0.0):
+    return (x + y) * (1 + t)
+
+
+def flab(x, y, *, t, labels=None, tag=""):
+    return x * (1 + t) + len(labels or []) + len(tag)
+
+
 def make_leaves():
     import tdgl
     return [tdgl.Parameter(f2), tdgl.Parameter(f3), tdgl.Parameter(ft, time_dependent=True), 2, 0.5]
@@ -202,7 +210,9 @@ def run(rep: common.Report, tier: str, seed: int, replay=None) -> int:
         return o
 
     base_times = [0.125, 250.0001, 250.0002, 250.0001, 1e6 + 0.5, 1e6 + 0.25, 3.0, 3, np.float64(3.0), 3.0000000001,
-                  1e-9, 1.0000001e-9, 0.0, -0.0, 7.25, 7.250000000000001]
+                  1e-9, 1.0000001e-9, 0.0, -0.0, 7.25, 7.250000000000001,
+                  # pairs of times that CPython's hash() does not tell apart (hash(-1.0) == hash(-2.0), hash(2.0**61) == hash(1.0))
+                  -1.0, -2.0, -1.0, 1.0, 2.0 ** 61, 1.0]
     td_trees = [c for c in d1 + d2 if c.time_dependent]
     nseq = 0
     for c in rng.sample(td_trees, 400 if tier == "quick" else 4000):
@@ -233,6 +243,37 @@ def run(rep: common.Report, tier: str, seed: int, replay=None) -> int:
         c._clear_cache()
     rep.count(nseq)
     rep.coverage["time_sequence_evaluations"] = nseq
+    # ---- the same object evaluated at the same coordinates given in another FORM (flat, then as a grid, then as another dtype):
+    # the value must have the form of the arguments it was called with
+    nform = 0
+    for c in rng.sample(td_trees, 60 if tier == "quick" else 600):
+        gx, gy = np.meshgrid(np.linspace(0.5, 1.5, 3), np.linspace(-1.0, 2.0, 4))
+        ix, iy = np.arange(1, 7), np.arange(2, 8)
+        forms = [(gx.ravel(), gy.ravel()), (gx, gy), (gx.ravel(), gy.ravel()), (ix, iy), (ix.view(np.float64), iy.view(np.float64)),
+                 (ix.astype(float), iy.astype(float))]
+        for fx, fy in forms:
+            with warnings.catch_warnings():
+                warnings.simplefilter("ignore")
+                try:
+                    want = ("val", raw_value(c, fx, fy, None, 0.5))
+                except (ZeroDivisionError, OverflowError, TypeError, ValueError) as e:
+                    want = (type(e).__name__, None)
+                try:
+                    got = ("val", c(fx, fy, t=0.5))
+                except (ZeroDivisionError, OverflowError, TypeError, ValueError) as e:
+                    got = (type(e).__name__, None)
+            nform += 1
+            same = got[0] == want[0] and (got[0] != "val" or (np.shape(got[1]) == np.shape(np.squeeze(want[1]))
+                                                               and np.array_equal(np.asarray(got[1]), np.squeeze(want[1]), equal_nan=True)))
+            if not same and nbad < 24:
+                nbad += 1
+                rep.violation("composite evaluated at the same coordinates in another form (flat / grid / other dtype) returns a value that is "
+                              "not the operator tree applied to the leaf functions at THESE arguments (cache entry of another call)",
+                              {"tree": repr(c)[:200], "shape": list(np.shape(fx)), "dtype": str(np.asarray(fx).dtype),
+                               "got": str(got)[:80], "want": str(want)[:80]})
+        c._clear_cache()
+    rep.count(nform)
+    rep.coverage["argument_form_evaluations"] = nform
     # pickling, caches
     for c in d1 + rng.sample(d2, 1500 if tier == "quick" else 20000):
         try:
@@ -340,6 +381,28 @@ def run(rep: common.Report, tier: str, seed: int, replay=None) -> int:
                           and pickle.loads(pickle.dumps(Wt * Wa)) == (Wt * Wb)))
     except Exception as e:  # noqa: BLE001
         rep.violation(f"Constant / symbolic operators / array keyword arguments raised {type(e).__name__}: {e}"[:200], {})
+    # equality is structural and total: comparing any two members of the vocabulary answers (never raises), whichever side is which;
+    # a leaf differs from a composite, and the same function wrapped with and without the time is two different leaves
+    try:
+        cst = _Const(2.0)
+        pairs_ne = [(cst, Pa * 2), (Pa * 2, cst), (cst * Pa, (Pa * 2) * Pa), ((Pa * 2) * Pa, cst * Pa), (Pa, Pa + 0), (Pa + 0, Pa),
+                    (Ta, Ta * 1), (cst, 2.0), (Pa * 2, 2.0)]
+        ok_ne = all((a != b) and not (a == b) for a, b in pairs_ne)
+        Sa, Sd = _t.Parameter(fopt), _t.Parameter(fopt, time_dependent=True)
+        ok_td = (Sa != Sd and not (Sa == Sd) and (Sa * 2) != (Sd * 2) and not (Sa * 2).time_dependent and (Sd * 2).time_dependent
+                 and float((Sa * 2)(X, Y)) == 2 * fopt(X, Y) and float((Sd * 2)(X, Y, t=3.0)) == 2 * fopt(X, Y, t=3.0)
+                 and Sd == _t.Parameter(fopt, time_dependent=True) and Sa == _t.Parameter(fopt))
+        kw_checks.append(("a leaf and a composite compare unequal in both orders without raising (Constant, Parameter, numbers)", ok_ne))
+        kw_checks.append(("the same function wrapped with and without time_dependent is two different parameters (flags, values, equality)", ok_td))
+        LK = dict(labels=["left", "right"], tag="abc")
+        Ls = _t.Parameter(flab, time_dependent=True, **LK)
+        kw_checks.append(("string / list-of-string keyword arguments: the leaf and composites over it evaluate and compare",
+                          float(Ls(X, Y, t=1.0)) == flab(X, Y, t=1.0, **LK) and float((Ls * 2)(X, Y, t=1.0)) == 2 * flab(X, Y, t=1.0, **LK)
+                          and float((Ls * 2 + Pa)(X, Y, t=2.0)) == 2 * flab(X, Y, t=2.0, **LK) + f2(X, Y, a=1.0)
+                          and (Ls * 2) == (_t.Parameter(flab, time_dependent=True, labels=["left", "right"], tag="abc") * 2)
+                          and (Ls * 2) != (_t.Parameter(flab, time_dependent=True, labels=["left", "up"], tag="abc") * 2)))
+    except Exception as e:  # noqa: BLE001
+        rep.violation(f"equality / evaluation over the parameter vocabulary raised {type(e).__name__}: {e}"[:200], {})
     Ka, Kb, Kc = _t.Parameter(fk, p=1.0, q=2.0), _t.Parameter(fk, q=2.0, p=1.0), _t.Parameter(fk, p=2.0, q=1.0)
     kw_checks += [
         ("keyword arguments written in another order are the same parameter", Ka == Kb and (Ka * 2) == (Kb * 2)
